@@ -310,12 +310,28 @@ func (c *Chooser) place(sym string) int {
 		return i
 	}
 	k := len(t.classes)
+	if z, known := c.memo["iszero("+sym+")"]; known && z == 0 {
+		// known non-zero: every slot except "equal to the zero class"
+		v := c.choose("order("+sym+")", 2*k-1, func(i int) string {
+			i++
+			if i%2 == 0 {
+				return "= " + strings.Join(t.classes[i/2], "=")
+			}
+			return "just after " + strings.Join(t.classes[i/2], "=")
+		})
+		return c.insertAt(sym, v+1)
+	}
 	v := c.choose("order("+sym+")", 2*k, func(i int) string {
 		if i%2 == 0 {
 			return "= " + strings.Join(t.classes[i/2], "=")
 		}
 		return "just after " + strings.Join(t.classes[i/2], "=")
 	})
+	return c.insertAt(sym, v)
+}
+
+func (c *Chooser) insertAt(sym string, v int) int {
+	t := c.times
 	if v%2 == 0 {
 		i := v / 2
 		t.classes[i] = append(t.classes[i], sym)
@@ -350,4 +366,18 @@ func (c *Chooser) cmpTime(a, b string) int {
 	return 0
 }
 
-func (c *Chooser) isZeroTime(a string) bool { return c.place(a) == 0 }
+// isZeroTime decides whether an instant is the zero time without fixing its
+// position among the other instants (a separate atom: code that only asks
+// IsZero does not multiply the weak orders).
+func (c *Chooser) isZeroTime(a string) bool {
+	t := c.times
+	if i, ok := t.index[a]; ok {
+		return i == 0
+	}
+	z := c.choose("iszero("+a+")", 2, func(i int) string { return map[int]string{0: "false", 1: "true"}[i] }) == 1
+	if z {
+		t.classes[0] = append(t.classes[0], a)
+		t.index[a] = 0
+	}
+	return z
+}
